@@ -1,4 +1,5 @@
 import logging
+import math
 import operator
 import struct
 from .scope import create_top_scope, Scope, SemanticError
@@ -12,6 +13,13 @@ def const_div(a, b):
         quotient = abs(a) // abs(b)
         return quotient if (a < 0) == (b < 0) else -quotient
     return a / b
+
+
+def const_rem(a, b):
+    """Remainder of two constants, it has the sign of the dividend."""
+    if isinstance(a, int) and isinstance(b, int):
+        return a - b * const_div(a, b)
+    return math.fmod(a, b)
 
 
 class Context:
@@ -121,7 +129,7 @@ class Context:
                 "-": operator.sub,
                 "/": const_div,
                 "*": operator.mul,
-                "%": operator.mod,
+                "%": const_rem,
             }
             return ops[expr.op](a, b)
         elif isinstance(expr, ast.TypeCast):
